@@ -11,7 +11,7 @@ from .refgeom import metric
 from .refscore import close
 from .refstore import RefStore, tup
 from .refwalks import WalkRef, TooLarge
-from .twins import clone, compare, max_live_size, num_equal
+from .twins import clone, compare, max_live_size, num_equal, near_tie_at_pruning_boundary, tie_upstream
 from .world_a import run_session, InjectedFault
 
 ALL_FAULTS = ("relist", "dup", "clock", "abort", "restart", "shuffle")
@@ -394,8 +394,8 @@ def eval_C07(doc):
             elif ia == n - 1 and ib == n - 1:
                 ea, eb = a.obs["bestE"], b.obs["bestE"]
                 if ea > eb and not num_equal(ea, eb, 1e-9, 1e-9):
-                    if doc["cfg"].get("avoid_goingback", True):
-                        stats["inconclusive_second_order"] = 1
+                    if tie_upstream(doc["cfg"], pr, un):
+                        stats["inconclusive_tie_upstream"] = 1
                     else:
                         how = "with-non-emitting" if doc["cfg"].get("non_emitting_states", True) else "emitting-only"
                         vs.append(oa.V("C07/pruned-more-probable-than-unpruned/" + how, "pruned=%r unpruned=%r" % (ea, eb), a))
@@ -453,8 +453,8 @@ def eval_C08(doc):
         return result(vs, doc, inc, stats={"aborted_by_exception": 1})
     c = compare(a.obs, b.obs)
     if c.startswith("diff"):
-        if doc["cfg"].get("avoid_goingback", True) and c != "diff:idx":
-            stats["inconclusive_second_order"] = 1
+        if c != "diff:idx" and tie_upstream(doc["cfg"], inc, one):
+            stats["inconclusive_tie_upstream"] = 1
         else:
             vs.append(oa.V("C08/incremental-differs/" + c, "incremental=%r oneshot=%r" % (
                 (a.obs["idx"], a.obs["bestE"], a.obs["tail"]), (b.obs["idx"], b.obs["bestE"], b.obs["tail"])), a))
@@ -496,8 +496,8 @@ def eval_C10(doc):
             return result(vs, doc, a, stats={"aborted_by_exception": 1})
         c = compare(oa_.obs, ob.obs)
         if c.startswith("diff"):
-            if doc["cfg"].get("avoid_goingback", True) and c != "diff:idx":
-                stats["inconclusive_second_order"] = 1
+            if c != "diff:idx" and tie_upstream(doc["cfg"], a, b):
+                stats["inconclusive_tie_upstream"] = 1
             else:
                 vs.append(oa.V("C10/relist/" + c, "%r vs %r" % ((oa_.obs["idx"], oa_.obs["bestE"], oa_.obs["tail"]),
                                                                 (ob.obs["idx"], ob.obs["bestE"], ob.obs["tail"])), oa_))
@@ -507,7 +507,10 @@ def eval_C10(doc):
     # rematch on a used matcher == fresh matcher with the same width
     d1 = clone(doc)
     last_k = None
+    cur_alt = False
     for op in d1["ops"]:
+        if op["op"] in ("match", "fresh"):
+            cur_alt = bool(op.get("alt"))
         if "k" in op:
             last_k = op["k"]
     uniq = d1["ops"][-1].get("unique", False)
@@ -516,6 +519,8 @@ def eval_C10(doc):
     w = used.matcher.max_lattice_width if used.matcher is not None else None
     d2 = clone(doc)
     d2["ops"] = [{"op": "match", "k": last_k, "unique": uniq}]
+    if cur_alt:
+        d2["ops"][0]["alt"] = True
     d2["faults"] = {k: v for k, v in doc.get("faults", {}).items() if k in ("dup", "clock", "relist")}
     if w is not None:
         d2["cfg"]["max_lattice_width"] = w
@@ -656,8 +661,13 @@ def eval_C16(doc):
         c = compare(oa_.obs, oo, rel=rel if kind != "translate" else 1e-7, abs_=1e-12 if kind != "translate" else 1e-9,
                     path_map=ren)
         if c.startswith("diff"):
-            if doc["cfg"].get("avoid_goingback", True) and c != "diff:idx":
-                stats["inconclusive_second_order"] = 1
+            if c != "diff:idx" and tie_upstream(doc["cfg"], a, b):
+                stats["inconclusive_tie_upstream"] = 1
+            elif kind in ("scale", "swap") and (near_tie_at_pruning_boundary(a.matcher) or near_tie_at_pruning_boundary(b.matcher)):
+                # listed finding: the transformation changes last bits of a probability and width pruning
+                # (exact ties only) turns that into another candidate set
+                vs.append(oa.V("C16/%s/near-tie-at-pruning-boundary" % kind, "%s: %r vs %r" % (
+                    c, (oa_.obs["idx"], oa_.obs["bestE"], oa_.obs["tail"]), (oo["idx"], oo["bestE"], oo["tail"])), oa_))
             else:
                 vs.append(oa.V("C16/%s/%s" % (kind, c), "%r vs %r" % ((oa_.obs["idx"], oa_.obs["bestE"], oa_.obs["tail"]),
                                                                    (oo["idx"], oo["bestE"], oo["tail"])), oa_))
